@@ -979,9 +979,9 @@ fn leftfill() {
         ("reduce-minmax-byte-empty-rows", "≡/↧ ≡(↘2) [1_2 3_4]", "[∞ ∞]"),
         ("reduce-minmax-byte-empty-rows", "≡/↥ ↙2_0 [1_2 3_4]", "[¯∞ ¯∞]"),
         ("reduce-minmax-byte-empty-rows", "≡/× ≡(↘2) =1[1_0 0_1]", "[1 1]"),
-        // open: integer exponent stored as byte uses powi, as float powf
+        // defect repaired by ae88f5d: integer exponent stored as byte used powi, as float powf
         ("pow-byte-exponent-powi", "ⁿ 224 3.25", "ⁿ ÷2 448 3.25"),
-        // open: 10^n of a byte uses powi, of a float powf (1 ulp apart for most n >= 23)
+        // defect repaired by f49674d: 10^n of a byte used powi, of a float powf (1 ulp apart for most n >= 23)
         ("exp10-byte-powi", "ₑ₁₀ 23", "ₑ₁₀ ÷2 46"),
         ("exp10-byte-powi", "ₑ₁₀ ⇡31", "ₑ₁₀ ÷2×2⇡31"),
         // controls: the same operations on shared or full buffers, and right fills
